@@ -14,12 +14,35 @@ sys.path.insert(0, os.path.dirname(__file__))
 from coqterm import to_coq  # noqa: E402
 
 ROOT = '/verif'
-COQ = ROOT + '/coq'
+REPO = os.environ.get('VERIF_REPO', '/repo').rstrip('/') or '/repo'
 CACHE = ROOT + '/.cache'
-TARGET = CACHE + '/target'
-HARNESS = ROOT + '/harness'
-REPO = '/repo'
 GUARD_FLAGS = '--cfg anda_verif'
+if REPO == '/repo':
+    OUT = ROOT                      # evidence/, replays/ live in /verif
+    COQ = ROOT + '/coq'
+    HARNESS = ROOT + '/harness'
+    TARGET = CACHE + '/target'
+else:
+    # Alternate source tree (used to try the checks on a modified copy of the repository without
+    # touching /repo): private copies of the Coq tree, the harness (paths rewritten) and the target dir.
+    _h = hashlib.sha1(REPO.encode()).hexdigest()[:10]
+    OUT = '%s/alt/%s' % (CACHE, _h)
+    COQ = OUT + '/coq'
+    HARNESS = OUT + '/harness'
+    TARGET = OUT + '/target'
+
+
+def prepare_alt():
+    if REPO == '/repo':
+        return
+    os.makedirs(OUT, exist_ok=True)
+    subprocess.run('rsync -a --delete --exclude gen/ %s/coq/ %s/' % (ROOT, COQ), shell=True, check=True)
+    os.makedirs(COQ + '/gen', exist_ok=True)
+    subprocess.run('rsync -a --delete --exclude target/ --exclude Cargo.lock %s/harness/ %s/' % (ROOT, HARNESS), shell=True, check=True)
+    subprocess.run("grep -rl '\"/repo/' %s --include=Cargo.toml | xargs -r sed -i 's#\"/repo/#\"%s/#g'" % (HARNESS, REPO), shell=True, check=True)
+    if not os.path.exists(TARGET) and os.path.exists(CACHE + '/target'):
+        subprocess.run('cp -a --reflink=auto %s/target %s' % (CACHE, TARGET), shell=True)
+
 
 FORBIDDEN = re.compile(
     r'\bAdmitted\b|\badmit\b|\bAxiom\b|\bAxioms\b|\bParameter\b|\bParameters\b|\bConjecture\b|'
@@ -59,8 +82,8 @@ def sh(cmd, timeout=1800, env=None, cwd=None, stdin=None):
 
 class Lock:
     def __init__(self, name):
-        os.makedirs(CACHE, exist_ok=True)
-        self.path = '%s/%s.lock' % (CACHE, name)
+        os.makedirs(OUT if REPO != '/repo' else CACHE, exist_ok=True)
+        self.path = '%s/%s.lock' % (OUT if REPO != '/repo' else CACHE, name)
 
     def __enter__(self):
         self.f = open(self.path, 'w')
@@ -97,7 +120,8 @@ class Check:
         self.level = 'proof'
         self.checker_cmd = ''
         os.makedirs(CACHE, exist_ok=True)
-        self.work = '%s/work/%s' % (CACHE, pid)
+        prepare_alt()
+        self.work = '%s/work/%s' % (OUT if REPO != '/repo' else CACHE, pid)
         os.makedirs(self.work, exist_ok=True)
 
     # ---------------------------------------------------------------- obligations
@@ -189,7 +213,7 @@ class Check:
                         per_file[f] = (rc2, out2)
                         if rc2 != 0:
                             rc, out = rc2, out2
-        self.checker_cmd = 'cd /verif/coq && coq_makefile -f _CoqProject -o Makefile && ' + cmd
+        self.checker_cmd = 'cd ' + COQ + ' && coq_makefile -f _CoqProject -o Makefile && ' + cmd
         self.cov['coq_wall_s'] = round(wall, 1)
         self.trust('Coq 8.16.1 kernel (coqc, vm_compute; no native_compute)')
         ok_build = (rc == 0)
@@ -303,8 +327,8 @@ class Check:
 
     def finish(self, exhaustive=False):
         """Apply the violation protocol, write evidence, exit."""
-        os.makedirs(ROOT + '/replays', exist_ok=True)
-        os.makedirs(ROOT + '/evidence', exist_ok=True)
+        os.makedirs(OUT + '/replays', exist_ok=True)
+        os.makedirs(OUT + '/evidence', exist_ok=True)
         # one violation per class; broken obligations are attached to a violation with a failing
         # input when there is one, otherwise they are reported as no-failing-input-found
         by_cls = {}
@@ -335,7 +359,7 @@ class Check:
                     lines.append('KNOWN-FINDING: property=%s %s' % (self.pid, k.get('what', v['what'])))
                     seen_known.add(k['class'])
                 continue
-            path = '%s/replays/%s-%d-%d.json' % (ROOT, self.pid, self.seed, reported)
+            path = '%s/replays/%s-%d-%d.json' % (OUT, self.pid, self.seed, reported)
             rep = dict(v['replay'])
             rep.update({'property': self.pid, 'class': v['cls'], 'what': v['what'], 'seed': self.seed, 'tier': self.tier,
                         'failing_input_found': v['found'],
@@ -358,7 +382,7 @@ class Check:
         ev = {'property_id': self.pid, 'tier': self.tier, 'seed': self.seed, 'level': self.level,
               'coverage': cov, 'assumptions': self.assumptions, 'wall_s': round(time.time() - self.t0, 1),
               'violations': reported}
-        json.dump(ev, open('%s/evidence/%s.json' % (ROOT, self.pid), 'w'), indent=1, default=str)
+        json.dump(ev, open('%s/evidence/%s.json' % (OUT, self.pid), 'w'), indent=1, default=str)
         for l in lines:
             print(l, flush=True)
         log('%s %s: %d/%d obligations, %d evaluations, %d distinct non-trivial, %d violation(s), %.0fs' % (
